@@ -1,3 +1,5 @@
+//go:build c16 || allprops
+
 package main
 
 import (
@@ -50,14 +52,6 @@ func init() {
 		return "", ""
 	})
 	Gen("C16", genC16)
-}
-
-// exact returns a copy whose capacity equals its length, so that any out-of-bounds slice
-// expression panics instead of silently reading spare capacity.
-func exact(b []byte) []byte {
-	c := make([]byte, len(b))
-	copy(c, b)
-	return c[:len(b):len(b)]
 }
 
 func sidEncode(auth uint64, subs []uint32) []byte {
